@@ -36,12 +36,18 @@ def build_model(rng):
     """returns (python source lines that rebuild the model, namespace after executing them)"""
     n = rng.randint(2, 6)
     src = ['from GTC import *']
-    indep = []
-    for i in range(n):
-        ind = rng.random() < 0.4
-        indep.append(ind)
-        src.append('x%d = ureal(%r, %r, independent=%r)' % (i, round(rng.uniform(-3, 3), 4), round(rng.uniform(0.1, 2), 4), ind))
+    indep = [rng.random() < 0.4 for _ in range(n)]
     dep = [i for i in range(n) if not indep[i]]
+    # 30 %: two or three of the dependent inputs are the members of one INFINITE-dof ensemble (multiple_ureal(.., inf)); they are
+    # still correlated with the dependent inputs outside the ensemble (legitimate: every dof is infinite)
+    ens = sorted(rng.sample(dep, rng.randint(2, min(3, len(dep))))) if len(dep) >= 2 and rng.random() < 0.3 else []
+    for i in range(n):
+        if i in ens:
+            if i == ens[0]:
+                src.append('%s = multiple_ureal([%s], [%s], inf)' % (', '.join('x%d' % j for j in ens),
+                           ', '.join(repr(round(rng.uniform(-3, 3), 4)) for _ in ens), ', '.join(repr(round(rng.uniform(0.1, 2), 4)) for _ in ens)))
+            continue
+        src.append('x%d = ureal(%r, %r, independent=%r)' % (i, round(rng.uniform(-3, 3), 4), round(rng.uniform(0.1, 2), 4), indep[i]))
     # PSD correlation by construction: r_ij = f_i f_j with |f| <= 1 (rank one + diagonal)
     f = {i: round(rng.uniform(-1, 1), 3) for i in dep}
     for a in dep:
